@@ -96,6 +96,32 @@ func cfReturnedLiteral(fd *ast.FuncDecl) *ast.CompositeLit {
 	return cl
 }
 
+// configStmts flattens a statement list: `if c { body }` becomes "if c {", body…, "}"; other statements are printed
+func configStmts(p *packages.Package, list []ast.Stmt, out *[]string) {
+	for _, st := range list {
+		switch x := st.(type) {
+		case *ast.IfStmt:
+			head := "if "
+			if x.Init != nil {
+				head += cfSrc(p, x.Init) + "; "
+			}
+			*out = append(*out, head+cfSrc(p, x.Cond)+" {")
+			configStmts(p, x.Body.List, out)
+			if x.Else != nil {
+				*out = append(*out, "} else {")
+				if eb, ok := x.Else.(*ast.BlockStmt); ok {
+					configStmts(p, eb.List, out)
+				} else {
+					configStmts(p, []ast.Stmt{x.Else}, out)
+				}
+			}
+			*out = append(*out, "}")
+		default:
+			*out = append(*out, cfSrc(p, st))
+		}
+	}
+}
+
 func configExtra(t *tr) string {
 	var b strings.Builder
 	p := t.pkg
@@ -176,6 +202,33 @@ func configExtra(t *tr) string {
 		t.errs = append(t.errs, "core/config: package variable `hooks` with an initial value not found")
 	}
 	b.WriteString(fmt.Sprintf("/-- initial value of the package variable `hooks` -/\ndef hooksInit : String := %q\n\n", hooksInit))
+
+	// WholeNumberHook (if present): source kinds, guarded target kinds, the refusal condition
+	var wnKinds []string
+	wnCond, wnFrom := "", ""
+	if wn := findFunc(p, "WholeNumberHook"); wn != nil {
+		ast.Inspect(wn.Body, func(n ast.Node) bool {
+			switch x := n.(type) {
+			case *ast.CaseClause:
+				for _, k := range x.List {
+					wnKinds = append(wnKinds, strings.TrimPrefix(cfSrc(p, k), "reflect."))
+				}
+			case *ast.IfStmt:
+				body := cfSrc(p, x.Body)
+				if strings.HasPrefix(body, "{ return nil,") {
+					wnCond = cfSrc(p, x.Cond)
+				}
+				if body == "{ return data, nil }" && wnFrom == "" {
+					wnFrom = cfSrc(p, x.Cond)
+				}
+			}
+			return true
+		})
+	}
+	b.WriteString("/-- `WholeNumberHook`: passes everything unless this fails / the guarded target kinds / when it refuses -/\n")
+	b.WriteString(fmt.Sprintf("def wholeNumberPass : String := %q\n", wnFrom))
+	b.WriteString("def wholeNumberKinds : List String := " + cfQ(wnKinds) + "\n")
+	b.WriteString(fmt.Sprintf("def wholeNumberRefuses : String := %q\n\n", wnCond))
 
 	// ---- 3. core/import Import(): hooks and resolvers in registration order
 	ip := load("github.com/yandex/pandora/core/import")
@@ -429,6 +482,144 @@ func configExtra(t *tr) string {
 	}
 	b.WriteString("/-- `propertyTokenResolver`: the error returns (format strings), in source order -/\ndef propertyErrorReturns : List String := " + cfQ(propErrs) + "\n")
 	b.WriteString("/-- `propertyTokenResolver` ends with an error return (property not found) -/\ndef propertyMissingIsError : Bool := " + leanBool(finalIsErr) + "\n\n")
+
+	// propertyTokenResolver: how the argument is cut and how a line is matched (the scanner loop)
+	var propLoop []string
+	propCut := ""
+	if pr := findFunc(cu, "propertyTokenResolver"); pr != nil {
+		ast.Inspect(pr.Body, func(n ast.Node) bool {
+			switch x := n.(type) {
+			case *ast.AssignStmt:
+				if len(x.Rhs) == 1 {
+					if call, ok := x.Rhs[0].(*ast.CallExpr); ok && strings.HasPrefix(cfSrc(cu, call.Fun), "strings.Cut") && propCut == "" {
+						propCut = cfSrc(cu, x)
+					}
+				}
+			case *ast.ForStmt:
+				propLoop = append(propLoop, "for "+cfSrc(cu, x.Cond))
+				configStmts(cu, x.Body.List, &propLoop)
+				return false
+			case *ast.RangeStmt:
+				propLoop = append(propLoop, "range "+cfSrc(cu, x.X))
+				configStmts(cu, x.Body.List, &propLoop)
+				return false
+			}
+			return true
+		})
+	}
+	b.WriteString(fmt.Sprintf("/-- `propertyTokenResolver`: how `file#key` is cut -/\ndef propertyCut : String := %q\n", propCut))
+	b.WriteString("/-- `propertyTokenResolver`: the scanner loop, statement by statement (`if c {` … `}` flattened) -/\ndef propertyLoop : List String := " + cfQ(propLoop) + "\n\n")
+
+	// ---- 5b. parseConf / fillConf (pluginconfig), DecodeAndValidate, the validator
+	var parseConds, fillStmts, fillReturns, hookCalls []string
+	if pf := findFunc(pc, "parseConf"); pf != nil {
+		var closure *ast.FuncLit
+		ast.Inspect(pf.Body, func(n ast.Node) bool {
+			if fl, ok := n.(*ast.FuncLit); ok && closure == nil {
+				closure = fl
+				return false
+			}
+			if ifs, ok := n.(*ast.IfStmt); ok {
+				parseConds = append(parseConds, cfSrc(pc, ifs.Cond))
+			}
+			return true
+		})
+		if closure == nil {
+			t.errs = append(t.errs, "parseConf: the fillConf closure not found")
+		} else {
+			for _, st := range closure.Body.List {
+				switch x := st.(type) {
+				case *ast.IfStmt:
+					fillStmts = append(fillStmts, "if "+cfSrc(pc, x.Cond))
+				default:
+					fillStmts = append(fillStmts, cfSrc(pc, st))
+				}
+			}
+			ast.Inspect(closure.Body, func(n ast.Node) bool {
+				if r, ok := n.(*ast.ReturnStmt); ok {
+					fillReturns = append(fillReturns, cfSrc(pc, r))
+				}
+				return true
+			})
+		}
+	} else {
+		t.errs = append(t.errs, "pluginconfig.parseConf not found")
+	}
+	for _, fn := range []string{"Hook", "FactoryHook"} {
+		if fd := findFunc(pc, fn); fd != nil {
+			ast.Inspect(fd.Body, func(n ast.Node) bool {
+				if r, ok := n.(*ast.ReturnStmt); ok && len(r.Results) == 1 {
+					if call, ok := r.Results[0].(*ast.CallExpr); ok {
+						hookCalls = append(hookCalls, fn+": "+cfSrc(pc, call))
+					}
+				}
+				return true
+			})
+		}
+	}
+	b.WriteString("/-- `parseConf`: the conditions it tests, in source order (outside the fillConf closure) -/\ndef parseConfConds : List String := " + cfQ(parseConds) + "\n")
+	b.WriteString("/-- the fillConf closure of `parseConf`: its statements (an `if` by its condition) -/\ndef fillConfStmts : List String := " + cfQ(fillStmts) + "\n")
+	b.WriteString("/-- every return of the fillConf closure -/\ndef fillConfReturns : List String := " + cfQ(fillReturns) + "\n")
+	b.WriteString("/-- what `Hook` / `FactoryHook` return -/\ndef pluginHookCalls : List String := " + cfQ(hookCalls) + "\n")
+	var dvStmts []string
+	if dv := findFunc(p, "DecodeAndValidate"); dv != nil {
+		configStmts(p, dv.Body.List, &dvStmts)
+	} else {
+		t.errs = append(t.errs, "config.DecodeAndValidate not found")
+	}
+	b.WriteString("/-- `config.DecodeAndValidate`, statement by statement -/\ndef decodeAndValidateStmts : List String := " + cfQ(dvStmts) + "\n")
+	var vStmts []string
+	if vf := findFunc(p, "Validate"); vf != nil {
+		configStmts(p, vf.Body.List, &vStmts)
+	}
+	b.WriteString("/-- `config.Validate` -/\ndef validateStmts : List String := " + cfQ(vStmts) + "\n")
+	// the validator: tag name, registered validations
+	vTag := ""
+	if nv := findFunc(p, "newValidator"); nv != nil {
+		ast.Inspect(nv.Body, func(n ast.Node) bool {
+			if call, ok := n.(*ast.CallExpr); ok && strings.HasSuffix(cfSrc(p, call.Fun), ".SetTagName") && len(call.Args) == 1 {
+				if sv, ok := cfStringConst(p, call.Args[0]); ok {
+					vTag = sv
+				}
+			}
+			return true
+		})
+	}
+	b.WriteString(fmt.Sprintf("/-- the struct tag the validator reads -/\ndef validateTagName : String := %q\n", vTag))
+	var regs [][2]string
+	for _, f := range p.Syntax {
+		for _, d := range f.Decls {
+			gd, ok := d.(*ast.GenDecl)
+			if !ok || gd.Tok != token.VAR {
+				continue
+			}
+			for _, sp := range gd.Specs {
+				vs := sp.(*ast.ValueSpec)
+				for i, n := range vs.Names {
+					if (n.Name == "validations" || n.Name == "stringValidations") && i < len(vs.Values) {
+						if cl, ok := vs.Values[i].(*ast.CompositeLit); ok {
+							for _, el := range cl.Elts {
+								if ecl, ok := el.(*ast.CompositeLit); ok && len(ecl.Elts) == 2 {
+									k, _ := cfStringConst(p, ecl.Elts[0])
+									regs = append(regs, [2]string{k, cfSrc(p, ecl.Elts[1])})
+								}
+							}
+						}
+					}
+				}
+			}
+		}
+	}
+	b.WriteString("/-- the validations core/config registers (tag, function) -/\ndef registeredValidations : List (String × String) := " + cfPairs(regs) + "\n")
+	var vrets [][2]string
+	for _, fn := range []string{"MinTimeValidation", "EndpointStringValidation"} {
+		if fd := findFunc(p, fn); fd != nil && len(fd.Body.List) > 0 {
+			if r, ok := fd.Body.List[len(fd.Body.List)-1].(*ast.ReturnStmt); ok && len(r.Results) == 1 {
+				vrets = append(vrets, [2]string{fn, cfSrc(p, r.Results[0])})
+			}
+		}
+	}
+	b.WriteString("/-- what the repo's own validations return -/\ndef validationReturns : List (String × String) := " + cfPairs(vrets) + "\n\n")
 
 	// ---- 6. cli.readConfig discard_overflow defaulting
 	cp := load("github.com/yandex/pandora/cli")
